@@ -4,7 +4,7 @@ import json, pathlib, re
 root = pathlib.Path('/verif/seeded')
 det = json.loads((root / 'detection.json').read_text())
 rows = []
-for d in sorted(p for p in root.iterdir() if p.is_dir()):
+for d in sorted(p for p in root.iterdir() if p.is_dir() and (p / 'meta.json').exists()):
     m = json.loads((d / 'meta.json').read_text())
     patch = (d / 'patch.diff').read_text()
     files = sorted(set(re.findall(r'^\+\+\+ b/(\S+)', patch, flags=re.M)))
